@@ -366,7 +366,9 @@ func c18FoldedConstants(r *Report, p *Prog, f *Folder, cv *curveT) {
 	// the parameter block a||b||Gx||Gy of GetZBytes (second spelling of the curve constants)
 	zb, err := f.GlobalByName("sm2", "zBytes")
 	if err != nil {
-		r.Fatalf("unresolved anchor: sm2.zBytes: %v", err)
+		// no second spelling of the constants: the block is computed from the curve literal at run time, which is C13's
+		// PARAMETER-BLOCK (interpreted there); nothing precomputed is left to compare
+		r.Note("sm2.zBytes is not a literal (%v): the parameter block is derived from the curve literal at run time and decided under C13 PARAMETER-BLOCK", err)
 		return
 	}
 	a := new(big.Int).Sub(cv.p, big.NewInt(3))
